@@ -43,7 +43,7 @@ Definition build_world_cli (os : list obj) : outcome world :=
   do e <- insert_objs engine0 (filter cli_inserts os);
   Ok (mkWorld (e_nss e) (e_pods e) (e_nps e) (sort_by_prio (e_anps e)) (e_banp e)).
 
-Inductive obs_answer := OTrue | OFalse | OErr | OPanic.
+Inductive obs_answer := OTrue | OFalse | OErr | OPanic | OSkip.   (* OSkip: not compared (see checks/c03.py) *)
 
 Record eval_case := mkEC { ec_id : nat; ec_objs : list obj; ec_cli_mode : bool;
                            ec_build_ok : bool;                 (* did the implementation build its engine *)
@@ -52,6 +52,7 @@ Record eval_case := mkEC { ec_id : nat; ec_objs : list obj; ec_cli_mode : bool;
 Definition answer_matches (m : outcome bool) (o : obs_answer) : bool :=
   match m, o with
   | Ok true, OTrue | Ok false, OFalse | Err _, OErr => true
+  | _, OSkip => true
   | _, _ => false
   end.
 
